@@ -54,16 +54,7 @@ func c09Policy(op c09Op) spec.Policy {
 	case "no-groups":
 		p.Groups = nil
 	case "oversize":
-		// assemblable, but longer than the kernel's 4096-instruction limit
-		g := spec.Group{Action: actErrno, Names: []string{"getppid"}}
-		for i := 0; i < 14; i++ {
-			ce := spec.CondEntry{Name: "getuid"}
-			for k := 0; k < 80; k++ {
-				ce.Conds = append(ce.Conds, spec.Cond{Arg: uint32(k % 6), Op: "Equal", Val: uint64(i*100 + k)})
-			}
-			g.Conds = append(g.Conds, ce)
-		}
-		p.Groups = []spec.Group{g}
+		p.Groups = []spec.Group{oversizeGroup()}
 	}
 	return p
 }
@@ -413,4 +404,30 @@ func checkC09(raw json.RawMessage) (ev.Result, error) {
 
 func TestC09Histories(t *testing.T) {
 	ev.Prop(t, "C09", "history", drawC09, checkC09)
+}
+
+// oversizeGroup: valid and assemblable, but far beyond the kernel's 4096-instruction limit whatever the lowering: 300
+// different syscalls x 3 lists x 3 Equal conditions whose operands have two non-zero, pairwise different halves. Any
+// correct program has to load and compare both halves of every condition (>= 4 instructions each): >= 10 800.
+func oversizeGroup() spec.Group {
+	g := spec.Group{Action: actErrno, Names: []string{"getppid"}}
+	n := 0
+	for _, name := range gen.Universe("x86_64") {
+		if isProbe(name) {
+			continue
+		}
+		if n >= 300 {
+			break
+		}
+		n++
+		for l := 0; l < 3; l++ {
+			ce := spec.CondEntry{Name: name}
+			for k := 0; k < 3; k++ {
+				v := uint64(0x10000+n*64+l*8+k)<<32 | uint64(0x20000+n*64+l*8+k)
+				ce.Conds = append(ce.Conds, spec.Cond{Arg: uint32((l + k) % 6), Op: "Equal", Val: v})
+			}
+			g.Conds = append(g.Conds, ce)
+		}
+	}
+	return g
 }
